@@ -22,6 +22,7 @@ mod c16;
 mod c17;
 mod c18;
 mod c19;
+mod c20;
 mod c24;
 mod c25;
 mod util;
@@ -101,6 +102,8 @@ fn search(twin: &str, case: Option<&str>, seed: u64) -> Option<Value> {
         c09::search(twin, case, seed)
     } else if twin.starts_with("c08.") {
         c08::search(twin, case, seed)
+    } else if twin.starts_with("c20.") {
+        c20::search(twin, case, seed)
     } else if twin.starts_with("c24.") {
         c24::search(twin, case, seed)
     } else if twin.starts_with("c25.") {
@@ -135,6 +138,8 @@ fn replay(twin: &str, input: &Value) -> Value {
         c09::replay(twin, input)
     } else if twin.starts_with("c08.") {
         c08::replay(twin, input)
+    } else if twin.starts_with("c20.") {
+        c20::replay(twin, input)
     } else if twin.starts_with("c24.") {
         c24::replay(twin, input)
     } else if twin.starts_with("c25.") {
@@ -169,6 +174,8 @@ fn sweep(twin: &str, seed: u64) -> Value {
         c09::sweep(twin, seed)
     } else if twin.starts_with("c08.") {
         c08::sweep(twin, seed)
+    } else if twin.starts_with("c20.") {
+        c20::sweep(twin, seed)
     } else if twin.starts_with("c24.") {
         c24::sweep(twin, seed)
     } else if twin.starts_with("c25.") {
